@@ -193,16 +193,18 @@ fn random_value(t: &Type, rng: &mut Rng) -> Value {
         Type::NamedTuple(fs) => Value::from_vector(fs.iter().map(|(_, e)| random_value(e, rng)).collect()),
     }
 }
-fn main_inputs(ctx: &Context, rng: &mut Rng) -> Option<(Graph, Vec<Value>)> {
+fn main_inputs(ctx: &Context, _rng: &mut Rng) -> Option<(Graph, Vec<Value>)> {
     ctx.check_finalized().ok()?;
     let g = ctx.get_main_graph().ok()?;
-    let mut v = vec![];
     for n in g.get_nodes() {
         if let Operation::Input(t) = n.get_operation() {
-            v.push(random_value(&t, rng));
+            // huge declared types (size-limit histories) cannot be materialised
+            if size_estimate(&t).map_or(true, |s| s > 1_000_000) {
+                return None;
+            }
         }
     }
-    Some((g, v))
+    Some((g, vec![]))
 }
 
 // ---- the library's context kinds -----------------------------------------------------------------
@@ -578,7 +580,7 @@ fn mutate(ver: &mut u64, inner: &mut J, rng: &mut Rng) -> Option<&'static str> {
             if a.is_empty() { return None; }
             let mut e = a[rng.below(a.len() as u64) as usize].clone();
             if rng.chance(1, 2) {
-                if t == "graphs_names" { e[0] = json!((e[0].as_u64().unwrap_or(0) + 1) % ng.max(1)); } else { e[0][1] = json!(e[0][1].as_u64().unwrap_or(0) ^ 1); }
+                if t == "graphs_names" { e[0] = json!(e[0].as_u64().unwrap_or(0).wrapping_add(1) % ng.max(1)); } else { e[0][1] = json!(e[0][1].as_u64().unwrap_or(0) ^ 1); }
             }
             a.push(e);
             Some("duplicate-name")
@@ -766,9 +768,10 @@ fn custom_op_json(out: &mut Out) {
 }
 
 pub fn run(tier: &str, seed: u64, out: &mut Out) {
+    if std::env::var("C12_DEBUG").is_ok() { std::panic::set_hook(Box::new(|i| eprintln!("PANIC {}", i))); }
     let mut rng = Rng::new(seed ^ 0xC12);
     let mut tags = Tags::new();
-    let (rounds, nmut, nbytes, nhist) = match tier { "thorough" => (6, 40, 150, 150), "search" => (10, 80, 400, 300), _ => (1, 9, 30, 24) };
+    let (rounds, nmut, nbytes, nhist) = match tier { "thorough" => (3, 24, 150, 100), "search" => (10, 80, 400, 300), _ => (1, 9, 30, 24) };
     let with_model = tier != "search";
     custom_op_json(out);
     for round in 0..rounds {
@@ -807,9 +810,10 @@ pub fn run(tier: &str, seed: u64, out: &mut Out) {
                 Ok(ctx) => {
                     let nodes: u64 = ctx.get_graphs().iter().map(|g| g.get_num_nodes()).sum();
                     out.stat(&format!("nodes:{}", match nodes { 0..=19 => "0-19", 20..=99 => "20-99", 100..=999 => "100-999", _ => "1000+" }));
-                    let model = with_model && nodes <= 700;
+                    // the model cases carry the whole payload as a term: bounded sizes
+                    let model = with_model && nodes <= 400;
                     if let Some(text) = roundtrip(&ctx, &kind, &mut rng, &mut tags, out, model, None) {
-                        mutants(&text, &kind, if nodes <= 400 { nmut } else { 2 }, &mut rng, &mut tags, out, with_model && nodes <= 400);
+                        mutants(&text, &kind, if nodes <= 100 { nmut } else { nmut / 4 }, &mut rng, &mut tags, out, with_model && nodes <= 150);
                         byte_mutants(&text, &kind, if text.len() < 100_000 { nbytes } else { nbytes / 5 }, &mut rng, out);
                     }
                 }
@@ -821,7 +825,7 @@ pub fn run(tier: &str, seed: u64, out: &mut Out) {
         let ncalls = 10 + rng.below(60) as usize;
         let (ctxs, calls) = random_history(&mut rng, ncalls, 1, hi % 2 == 0, &mut tags, out, "h:");
         if let Some(text) = roundtrip(&ctxs[0], "history", &mut rng, &mut tags, out, with_model, Some(&calls[0])) {
-            mutants(&text, "history", if tier == "quick" { 3 } else { 8 }, &mut rng, &mut tags, out, with_model);
+            mutants(&text, "history", if tier == "quick" { 3 } else { 6 }, &mut rng, &mut tags, out, with_model);
             byte_mutants(&text, "history", 10, &mut rng, out);
         }
     }
